@@ -265,6 +265,9 @@ def gen_udp_script(rng, nsteps=None, flavour=None):
     mx = rng.choice([0, 0, 1, 3, 6])
     cfg = {"nhosts": n, "v6": v6, "cap": cap, "seed": rng.randrange(1 << 20), "min_ms": 0 if rng.random() < 0.7 else min(1, mx),
            "max_ms": mx, "random_order": rng.random() < 0.3}
+    # Builder::tcp_capacity is a different knob: it must not influence UDP sockets (small where the UDP capacity is large
+    # and the other way round, so that a queue sized from the wrong one loses or keeps datagrams)
+    cfg["tcp_cap"] = rng.choice([1, 2]) if cap == 64 else 64
     ids = Ids()
     nsteps = nsteps or rng.randrange(8, 26)
     socks = [dict() for _ in range(n)]          # sid -> {"port": guess, "kind"}
